@@ -229,9 +229,12 @@ func deriveContracts(
 		// b ends with a return
 		ret := retInstr.Results[0]
 		tables := newNilnessTableSet()
-		if r, ok := nilnessTableSetByBB[retInstr.Block()]; ok {
+		if r, ok := nilnessTableSetByBB[retInstr.Block()]; ok && len(r) != 0 {
 			tables = r
 		} else {
+			// Nothing is known at this return (empty tables are not saved for a block, so the set of
+			// a block that is reached without any learned nilness is empty): check the return
+			// against the empty table instead of skipping it.
 			tables, _ = add(tables, nilnessTable{})
 		}
 		for _, table := range tables {
